@@ -196,6 +196,13 @@ def run(prog, tier, extra=None):
                         if not _random_feeds(fb, chf):
                             res.add(Finding(R3, "C17.once|%s|not-random" % fn, "%s stores a challenge that does not come from generate_random_bytes: %s" % (fn, show(e)[:120]), fb.loc(bb)))
                             continue
+                    # every value that can reach the store is fresh: none of the definitions it is assembled from reads the challenge
+                    # that is already outstanding (a re-used challenge lets the peer's own signature over it be reflected back)
+                    stale = _reads_old_challenge(fb, chf, e, set())
+                    if stale is not None:
+                        res.add(Finding(R3, "C17.once|%s|reused" % fn, "%s can re-issue the challenge that is already outstanding (%s) instead of a fresh one: a response made for the "
+                                        "earlier challenge - including the node's own reflected answer - is accepted" % (fn, show(stale)[:60]), fb.loc(bb)))
+                        continue
                     res.sample({"rule": R3, "fn": fn, "site": fb.loc(bb), "challenge": show(e)[:100], "verdict": "fresh random challenge"})
         if n == 0:
             res.add(Finding(R3, "C17.once|%s|no-challenge" % fn, "%s does not record the challenge it issues" % fn, fb.loc(0)))
@@ -280,6 +287,21 @@ def run(prog, tier, extra=None):
         "It does not decide relay/reflection across connections or attacker interleavings (protocol state space).")
     res.assumptions = ["MARKERS / INSERTERS tables in analysis/rules/c17.py, one reason each"]
     return res
+
+
+def _reads_old_challenge(fb, chf, e, seen):
+    """an expression (following the definitions of the locals it mentions) that reads Peer.challenge_for_peer"""
+    if has_field(e, "peer::Peer", "challenge_for_peer"):
+        return e
+    for x in walk(e):
+        if x[0] == "local" and x[1] not in seen:
+            seen.add(x[1])
+            for d in fb.defs(x[1]):
+                if d[0] == "stmt":
+                    r = _reads_old_challenge(fb, chf, chf.rvalue(d[3], 0), seen)
+                    if r is not None:
+                        return r
+    return None
 
 
 def _random_feeds(fb, chf):
